@@ -24,7 +24,8 @@ HasStateful(ps) == \E i \in 1..Len(ps) : ps[i] = "stateful"
 Shapes == {"plain", "twin", "authprobe"}
 Desc == {d \in [ops : [1..NOps -> Beh], links : LinkBeh, phases : PhaseSets, workers : 1..MaxWorkers,
                 max_failures : {0, 1, 2}, cof : BOOLEAN, unique : BOOLEAN, shape : Shapes] :
-           /\ (HasStateful(d.phases) <=> d.links # "none")          \* the stateful phase needs links; no links otherwise
+           /\ (d.links # "none" => HasStateful(d.phases))            \* links only matter to the stateful phase; the phase may also be
+                                                                   \* selected for an API without links (it is then not applicable)
            /\ (d.shape # "plain" => d.links = "none")
            /\ (d.phases = <<"stateful">> => \A i \in 1..NOps : d.ops[i] = "ok")}
 FaultSites == {"builder.create_test", "unit.worker.case", "unit.worker.send", "checks.run", "stateful.thread.step"}
